@@ -345,9 +345,9 @@ def _panic_fmt(ctx, a, c):
     raise Panic("panic_fmt: " + (display_concrete(ctx, a[0]) if a else ""))
 
 
-@model("<bool as Not>::not", doc="core")
+@model("<bool as Not>::not", "<&bool as Not>::not", doc="core")
 def _bool_not(ctx, a, c):
-    return z3.Not(a[0])
+    return z3.Not(a[0] if is_z3(a[0]) else deref(ctx, a[0]))
 
 
 # ---- clone ------------------------------------------------------------------------------------
@@ -444,6 +444,21 @@ def lower_of(ctx, s):
     """abstract lower-casing for registered strings (see inputs.sym_authority), else the definition"""
     known = getattr(ctx, "lower_registry", {}).get(s.get_id())
     return known if known is not None else lower(s)
+
+
+@model("str::to_ascii_lowercase", "str::to_lowercase", doc="core: ASCII lower-cased copy (inputs are ASCII)")
+def _to_ascii_lowercase(ctx, a, c):
+    return lower_of(ctx, as_str(ctx, a[0]))
+
+
+@model("<String as PartialEq<&str>>::ne", "<String as PartialEq<str>>::ne", doc="core")
+def _string_ne_str(ctx, a, c):
+    return as_str(ctx, a[0]) != as_str(ctx, a[1])
+
+
+@model("<String as PartialEq<&str>>::eq", doc="core")
+def _string_eq_str(ctx, a, c):
+    return as_str(ctx, a[0]) == as_str(ctx, a[1])
 
 
 @model("str::eq_ignore_ascii_case", doc="core: ASCII case-insensitive equality")
@@ -788,6 +803,22 @@ def _uri_pq(ctx, a, c):
     return none()
 
 
+@model("Authority::port_u16", doc="http uri/authority.rs: the port as a number, if any")
+def _auth_port_u16(ctx, a, c):
+    au = deref(ctx, a[0])
+    if ctx.branch(au.has_port, "has_port"):
+        return some(au.port)
+    return none()
+
+
+@model("Authority::port", doc="http uri/authority.rs: the port, if any")
+def _auth_port(ctx, a, c):
+    au = deref(ctx, a[0])
+    if ctx.branch(au.has_port, "has_port"):
+        return some(PortV(au.port, au.port_text))
+    return none()
+
+
 @model("Port::as_u16", doc="http uri/port.rs")
 def _port_as_u16(ctx, a, c):
     return deref(ctx, a[0]).num
@@ -801,6 +832,23 @@ def _auth_host(ctx, a, c):
 @model("Authority::as_str", "PathAndQuery::as_str", "Scheme::as_str", doc="http: text of the component (PathAndQuery: \"/\" when empty)")
 def _as_str(ctx, a, c):
     return as_str(ctx, a[0])
+
+
+@model("PathAndQuery::path", doc="http uri/path.rs: the data up to the first '?'; \"/\" when that is empty")
+def _pq_path(ctx, a, c):
+    d = deref(ctx, a[0]).data
+    q = z3.IndexOf(d, z3.StringVal("?"), 0)
+    p = z3.If(q < 0, d, z3.SubString(d, 0, q))
+    return z3.If(z3.Length(p) == 0, z3.StringVal("/"), p)
+
+
+@model("PathAndQuery::query", doc="http uri/path.rs: the data after the first '?', None without one")
+def _pq_query(ctx, a, c):
+    d = deref(ctx, a[0]).data
+    q = z3.IndexOf(d, z3.StringVal("?"), 0)
+    if ctx.branch(q < 0, "path_and_query has no query"):
+        return none()
+    return some(z3.SubString(d, q + 1, z3.Length(d) - q - 1))
 
 
 @model("<Scheme as PartialEq>::eq", doc="http uri/scheme.rs: ASCII case-insensitive comparison")
@@ -1292,6 +1340,10 @@ def _str_parse(ctx, a, c):
     for cand in list(reg.values()):
         if ctx.branch(s == cand.as_str_model(ctx), "text equals a known authority"):
             return ok(cand)
+    # a host that some registered authority carries (e.g. the text left after stripping ":port")
+    for cand in list(reg.values()):
+        if s.get_id() == cand.host.get_id():
+            return ok(AuthorityV(cand.host, z3.BoolVal(False), z3.BitVecVal(0, 16), inner=cand.inner, bracketed=cand.bracketed))
     # a bare registered name (letters/digits/dots/dashes) parses as a host-only authority
     name = z3.Plus(z3.Union(z3.Range("a", "z"), z3.Range("A", "Z"), z3.Range("0", "9"), z3.Re(z3.StringVal(".")), z3.Re(z3.StringVal("-"))))
     if ctx.branch(z3.InRe(s, name), "text is a bare host name"):
@@ -1399,6 +1451,26 @@ def _dq_push_back(ctx, a, c):
 def _dq_pop_front(ctx, a, c):
     d = dq_of(ctx, a[0])
     return some(d.cells.pop(0).v) if d.cells else none()
+
+
+@model("VecDeque::retain", doc="alloc: keeps the elements for which the closure returns true (the closure's MIR is executed per element; its verdict must be concrete), drops the others, preserves order")
+def _dq_retain(ctx, a, c):
+    d = dq_of(ctx, a[0])
+    kept, dropped = [], []
+    for cell in list(d.cells):
+        r = call_closure(ctx, a[1], [Ref(cell)])
+        r = z3.simplify(r) if is_z3(r) else r
+        if z3.is_true(r):
+            kept.append(cell)
+        elif z3.is_false(r):
+            dropped.append(cell)
+        else:
+            raise Inconclusive("VecDeque::retain with a symbolic predicate result")
+    d.cells = kept
+    for cell in dropped:
+        if cell.v is not None and not is_z3(cell.v):
+            ctx.drop_value(cell.v)
+    return UNIT
 
 
 @model("VecDeque::len", doc="alloc")
@@ -1584,6 +1656,39 @@ def _split_next(ctx, a, c):
         return some(z3.If(i < 0, s, z3.SubString(s, i + 1, z3.Length(s) - i - 1)))
     i = z3.IndexOf(s, ch, 0)
     return some(z3.If(i < 0, s, z3.SubString(s, 0, i)))
+
+
+@model("str::rsplit_once", "str::split_once", doc="core: (before, after) the last / first occurrence of a char pattern, None without one")
+def _split_once(ctx, a, c):
+    ch = z3.simplify(a[1])
+    if not z3.is_bv_value(ch):
+        raise Inconclusive("split_once pattern")
+    s = as_str(ctx, a[0])
+    pat = z3.StringVal(chr(ch.as_long()))
+    rev = "rsplit_once" in c
+    known = getattr(ctx, "parse_registry", {}).get(s.get_id())
+    if known is not None and chr(ch.as_long()) == ":" and rev:
+        # text built from a structured authority: [userinfo@]host[:port]; the input builder's userinfo
+        # alphabet has no ':', so the last colon is the port separator or lies inside an IPv6 literal
+        if known.userinfo is None:
+            prefix = z3.StringVal("")
+        else:
+            prefix = z3.If(known.userinfo == z3.StringVal(""), z3.StringVal(""), z3.Concat(known.userinfo, z3.StringVal("@")))
+        if ctx.branch(known.has_port, "has_port"):
+            before = z3.simplify(z3.Concat(prefix, known.host))
+            stripped = AuthorityV(known.host, z3.BoolVal(False), z3.BitVecVal(0, 16), inner=known.inner, bracketed=known.bracketed)
+            stripped.userinfo = known.userinfo
+            stripped._text, stripped._hp = before, known.host
+            ctx.parse_registry[before.get_id()] = stripped
+            return some(Agg("tuple", [before, known.port_text]))
+        i = z3.LastIndexOf(known.host, pat)
+        if ctx.branch(i < 0, "no colon in host"):
+            return none()
+        return some(Agg("tuple", [z3.Concat(prefix, z3.SubString(known.host, 0, i)), z3.SubString(known.host, i + 1, z3.Length(known.host) - i - 1)]))
+    i = z3.LastIndexOf(s, pat) if rev else z3.IndexOf(s, pat, 0)
+    if ctx.branch(i < 0, "pattern absent"):
+        return none()
+    return some(Agg("tuple", [z3.SubString(s, 0, i), z3.SubString(s, i + 1, z3.Length(s) - i - 1)]))
 
 
 @model("str::find", doc="core: byte index of the first occurrence of a char pattern")
